@@ -380,11 +380,15 @@ def corner_programs():
     # mod() over cells that are numbers (negative too), empty, blank, text, or not there
     M = [HDR[:], ["r1", "12", "7", "a", "b"], ["r2", "7", "12", "a", "b"], ["r3", "", "4", "a", "b"], ["r4", "-3", "", "a", "b"], ["r5", "  ", "0", "a", "b"], ["r6"],
          ["r7", "0", "-4", "a", "b"], ["r8", "abc", "9", "a", "b"], ["r9", "30"]]
+    DP = [HDR[:], ["r1", "1", "5", "a", "b"], ["r2", "9", "7", "a", "b"], ["r3", "2", "7", "a", "b"], ["r4", "9", "5", "a", "b"], ["r5", "1", "5", "a", "b"], ["r6", "7", "9", "a", "b"], ["r7", "3", "7", "a", "b"]]
     return [
         # qualified assignments under a tracking key: the latch holds the first value, onchange objects to a repeat, the other key is kept
         P([("@d1.a.latch = int(#n)", f"(CAgg (AssignQK {Q(latch=True)} 1 {ulit('a')} (NInt (NHdr 1))))"), ("@d1.b = int(#m)", f"(CAct (Agg (AssignK 1 {ulit('b')} (NInt (NHdr 2)))))")], rows=INC),
         P([("@d2.tot.onchange = int(#n)", f"(CAgg (AssignQK {Q(onchange=True)} 2 {ulit('tot')} (NInt (NHdr 1))))")], rows=INC),
         P([("@d3.b = int(#m)", f"(CAct (Agg (AssignK 3 {ulit('b')} (NInt (NHdr 2)))))"), ("@d3.a.increase = int(#n)", f"(CAgg (AssignQK {Q(increase=True)} 3 {ulit('a')} (NInt (NHdr 1))))")], rows=INC),
+        # push_distinct() asks the STACK whether the value is on it: a value popped off may be pushed again; another component's pushes count
+        P([('push_distinct("k5", #m)', "(CAct (PushD 5 (NHdr 2)))"), ('gt(#n, 5) -> @p1 = pop("k5")', "(CWhen (BCmp Gt (NHdr 1) (NLit 5)) (Pop 1 5))")], rows=DP),
+        P([('push("k6", #m)', "(CAct (PushN 6 (NHdr 2)))"), ('push_distinct("k6", #n)', "(CAct (PushD 6 (NHdr 1)))"), ('gt(#n, 8) -> @p2 = pop("k6")', "(CWhen (BCmp Gt (NHdr 1) (NLit 8)) (Pop 2 6))")], rows=DP),
         P([("mod(#n, 2) == 0", "(CMod false 1%nat 2 0)")], rows=M),
         P([("not(above(mod(#n, 2), 0))", "(CMod true 1%nat 2 0)")], rows=M),
         P([("mod(#m, 3) == 1", "(CMod false 2%nat 3 1)"), ("no()", "(CB BNo)")], rows=M, AND=False),
